@@ -341,26 +341,28 @@ theorem slice_spec {prog : Prog} {ρ : Nat → Nat → Nat} {ar : Nat → Nat} {
         · -- initialize_select: one process source, so an Await goes out
           simp only [selTargets, List.isEmpty_cons, Bool.false_eq_true, if_false]
           exact ⟨rfl, rfl, h.nofail, h.res, h.pcle, ⟨rem, htr, hrem⟩, rfl, by simp, by simp, fun _ => h.issued, by simp⟩
-        · dsimp only
-          rw [firstReady_single]
-          rcases srcReady_proc { x with selStart := some (x.selStart.getD now) } now (x.selStart.getD now) r h.nofail with ⟨v, hv, hready⟩ | hready
-          · rw [hready]
-            dsimp only
-            have hmem : (x.reg r, some v) ∈ x.awaiting := alookup_mem hv
-            have hgood := h.store r v (by rw [h.rlen]; exact hr) hmem
-            obtain ⟨a, rema, rfl, hta⟩ := hgood
-            have ih := slice_spec ht tail now self fuel
-              { x with selStart := none, pc := x.pc + 1, selInit := false, acc := x.acc ++ [Val.tuple ([(ρ x.fn r : Int)] :: a)], mailbox := x.mailbox,
-                       awaiting := x.awaiting.filter (fun kv => kv.1 ∉ selTargets x [.proc r]),
-                       awaitFailed := x.awaitFailed.filter (· ∉ selTargets x [.proc r]) }
-              { res := h.res, issued := h.issued, nofail := by simp [h.nofail], pcle := hlt,
-                trace := ⟨rem, Trace.await _ _ _ _ r a rema htr hs' hta, hrem⟩,
-                rlen := by show x.regs.length = base prog ar x.fn (x.pc + 1)
-                           rw [h.rlen]; unfold base; rw [hnsp],
-                store := fun r' v' hr' hm' => h.store r' v' hr' (List.mem_filter.mp hm').1 }
-            exact ⟨ih.fn, ih.regs, ih.nofail, ih.res, ih.pcle, ih.trace, ih.nsp.trans hnsp, ih.notFailed, ih.spawnOut, ih.other, ih.done⟩
-          · rw [hready]
-            exact ⟨rfl, rfl, h.nofail, h.res, h.pcle, ⟨rem, htr, hrem⟩, rfl, by simp, by simp, fun _ => h.issued, by simp⟩
+        · split
+          · exact ⟨rfl, rfl, h.nofail, h.res, h.pcle, ⟨rem, htr, hrem⟩, rfl, by simp, by simp, fun _ => h.issued, by simp⟩
+          · dsimp only
+            rw [firstReady_single]
+            rcases srcReady_proc { x with selStart := some (x.selStart.getD now) } now (x.selStart.getD now) r h.nofail with ⟨v, hv, hready⟩ | hready
+            · rw [hready]
+              dsimp only
+              have hmem : (x.reg r, some v) ∈ x.awaiting := alookup_mem hv
+              have hgood := h.store r v (by rw [h.rlen]; exact hr) hmem
+              obtain ⟨a, rema, rfl, hta⟩ := hgood
+              have ih := slice_spec ht tail now self fuel
+                { x with selStart := none, pc := x.pc + 1, selInit := false, acc := x.acc ++ [Val.tuple ([(ρ x.fn r : Int)] :: a)], mailbox := x.mailbox, unanswered := [],
+                         awaiting := x.awaiting.filter (fun kv => kv.1 ∉ selTargets x [.proc r]),
+                         awaitFailed := x.awaitFailed.filter (· ∉ selTargets x [.proc r]) }
+                { res := h.res, issued := h.issued, nofail := by simp [h.nofail], pcle := hlt,
+                  trace := ⟨rem, Trace.await _ _ _ _ r a rema htr hs' hta, hrem⟩,
+                  rlen := by show x.regs.length = base prog ar x.fn (x.pc + 1)
+                             rw [h.rlen]; unfold base; rw [hnsp],
+                  store := fun r' v' hr' hm' => h.store r' v' hr' (List.mem_filter.mp hm').1 }
+              exact ⟨ih.fn, ih.regs, ih.nofail, ih.res, ih.pcle, ih.trace, ih.nsp.trans hnsp, ih.notFailed, ih.spawnOut, ih.other, ih.done⟩
+            · rw [hready]
+              exact ⟨rfl, rfl, h.nofail, h.res, h.pcle, ⟨rem, htr, hrem⟩, rfl, by simp, by simp, fun _ => h.issued, by simp⟩
       · have hhas := hasRecv_of_getElem hs'
         split
         · -- initialize_select without process sources: the select is evaluated in the same slice
@@ -369,26 +371,28 @@ theorem slice_spec {prog : Prog} {ρ : Nat → Nat → Nat} {ar : Nat → Nat} {
             { res := h.res, issued := h.issued, nofail := h.nofail, pcle := h.pcle, trace := ⟨rem, htr, hrem⟩,
               rlen := h.rlen, store := h.store }
           exact ⟨ih.fn, ih.regs, ih.nofail, ih.res, ih.pcle, ih.trace, ih.nsp, ih.notFailed, ih.spawnOut, ih.other, ih.done⟩
-        · dsimp only
-          rw [firstReady_single]
-          rcases srcReady_recv { x with selStart := some (x.selStart.getD now) } now (x.selStart.getD now) f with ⟨m, rest, hfa, hready⟩ | hready
-          · rw [hready]
-            dsimp only
-            have hfa' : firstAccepted f x.mailbox = some (m, rest) := hfa
-            have hk := firstAcceptedK_append f tail _ _ _ (firstAccepted_keys f _ _ _ hfa')
-            rw [← hrem hhas] at hk
-            have ih := slice_spec ht tail now self fuel
-              { x with selStart := none, pc := x.pc + 1, selInit := false, acc := x.acc ++ [m.val], mailbox := rest,
-                       awaiting := x.awaiting.filter (fun kv => kv.1 ∉ selTargets x [.recv f]),
-                       awaitFailed := x.awaitFailed.filter (· ∉ selTargets x [.recv f]) }
-              { res := h.res, issued := h.issued, nofail := by simp [h.nofail], pcle := hlt,
-                trace := ⟨rest.map Msg.key ++ tail, by rw [Msg.val_key]; exact Trace.recv _ _ _ _ f m.key _ htr hs' hk, fun _ => rfl⟩,
-                rlen := by show x.regs.length = base prog ar x.fn (x.pc + 1)
-                           rw [h.rlen]; unfold base; rw [hnsp],
-                store := fun r' v' hr' hm' => h.store r' v' hr' (List.mem_filter.mp hm').1 }
-            exact ⟨ih.fn, ih.regs, ih.nofail, ih.res, ih.pcle, ih.trace, ih.nsp.trans hnsp, ih.notFailed, ih.spawnOut, ih.other, ih.done⟩
-          · rw [hready]
-            exact ⟨rfl, rfl, h.nofail, h.res, h.pcle, ⟨rem, htr, hrem⟩, rfl, by simp, by simp, fun _ => h.issued, by simp⟩
+        · split
+          · exact ⟨rfl, rfl, h.nofail, h.res, h.pcle, ⟨rem, htr, hrem⟩, rfl, by simp, by simp, fun _ => h.issued, by simp⟩
+          · dsimp only
+            rw [firstReady_single]
+            rcases srcReady_recv { x with selStart := some (x.selStart.getD now) } now (x.selStart.getD now) f with ⟨m, rest, hfa, hready⟩ | hready
+            · rw [hready]
+              dsimp only
+              have hfa' : firstAccepted f x.mailbox = some (m, rest) := hfa
+              have hk := firstAcceptedK_append f tail _ _ _ (firstAccepted_keys f _ _ _ hfa')
+              rw [← hrem hhas] at hk
+              have ih := slice_spec ht tail now self fuel
+                { x with selStart := none, pc := x.pc + 1, selInit := false, acc := x.acc ++ [m.val], mailbox := rest, unanswered := [],
+                         awaiting := x.awaiting.filter (fun kv => kv.1 ∉ selTargets x [.recv f]),
+                         awaitFailed := x.awaitFailed.filter (· ∉ selTargets x [.recv f]) }
+                { res := h.res, issued := h.issued, nofail := by simp [h.nofail], pcle := hlt,
+                  trace := ⟨rest.map Msg.key ++ tail, by rw [Msg.val_key]; exact Trace.recv _ _ _ _ f m.key _ htr hs' hk, fun _ => rfl⟩,
+                  rlen := by show x.regs.length = base prog ar x.fn (x.pc + 1)
+                             rw [h.rlen]; unfold base; rw [hnsp],
+                  store := fun r' v' hr' hm' => h.store r' v' hr' (List.mem_filter.mp hm').1 }
+              exact ⟨ih.fn, ih.regs, ih.nofail, ih.res, ih.pcle, ih.trace, ih.nsp.trans hnsp, ih.notFailed, ih.spawnOut, ih.other, ih.done⟩
+            · rw [hready]
+              exact ⟨rfl, rfl, h.nofail, h.res, h.pcle, ⟨rem, htr, hrem⟩, rfl, by simp, by simp, fun _ => h.issued, by simp⟩
 
 /-! ### the system invariant -/
 
@@ -684,7 +688,10 @@ theorem CtlSame.applyResults (a : Pid) : ∀ (rs : Results) (w : WorkerSt),
       (CtlSame.applyResults a rest _ (fun t r hm => h t r (List.mem_cons_of_mem _ hm)))
   | (t0, none) :: rest, w, h => by
     unfold QM.Sys.applyResults
-    exact CtlSame.applyResults a rest w (fun t r hm => h t r (List.mem_cons_of_mem _ hm))
+    refine (?_ : CtlSame w (w.notifyPending a t0)).trans
+      (CtlSame.applyResults a rest _ (fun t r hm => h t r (List.mem_cons_of_mem _ hm)))
+    unfold WorkerSt.notifyPending
+    exact CtlSame.modProc w a _ (fun y => rfl)
 
 theorem CtlSame.foldl {α : Type} (f : WorkerSt → α → WorkerSt) (hf : ∀ w a, CtlSame w (f w a)) :
     ∀ (l : List α) (w : WorkerSt), CtlSame w (l.foldl f w)
@@ -1674,8 +1681,11 @@ theorem FnKeep.applyResults (a : Pid) : ∀ (rs : Results) (w : WorkerSt), FnKee
   | [], w => FnKeep.refl w
   | (t0, some r) :: rest, w => by
     unfold QM.Sys.applyResults; exact (FnKeep.notifyResult w a t0 r).trans (FnKeep.applyResults a rest _)
-  | (_, none) :: rest, w => by
-    unfold QM.Sys.applyResults; exact FnKeep.applyResults a rest w
+  | (t0, none) :: rest, w => by
+    unfold QM.Sys.applyResults
+    refine (?_ : FnKeep w (w.notifyPending a t0)).trans (FnKeep.applyResults a rest _)
+    unfold WorkerSt.notifyPending
+    exact FnKeep.modProc w a _ (fun y => rfl)
 
 theorem FnKeep.foldl {α : Type} (f : WorkerSt → α → WorkerSt) (hf : ∀ w a, FnKeep w (f w a)) :
     ∀ (l : List α) (w : WorkerSt), FnKeep w (l.foldl f w)
@@ -1704,11 +1714,13 @@ theorem slice_fn (prog : Prog) (now : Nat) (self : Pid) : ∀ (fuel : Nat) (p : 
         split
         · exact slice_fn prog now self fuel _
         · rfl
-      · dsimp only
-        split
-        · exact slice_fn prog now self fuel _
+      · split
         · rfl
-        · rfl
+        · dsimp only
+          split
+          · exact slice_fn prog now self fuel _
+          · rfl
+          · rfl
 
 theorem FnKeep.execStep (s : Sys) (i : Wid) (fuel : Nat) (ordQ : List Pid) :
     FnKeep (s.wk i) ((QM.Sys.execStep s i fuel ordQ).wk i) := by
